@@ -54,7 +54,8 @@ UNI_NAMES = ["\u00e9", "a\u00e9\u0663", "\u540d\u524d", "_\u0663", "\uff21b", "x
 TOKS = ["ID", "*", ",", "(", ")"]
 FOREIGN = ["\t", "\n", "\u00a0", "\u3000", "\u00e9", "-", ".", "\r\n", "\u0663"]
 MUT_POOL = list("AB_1*(), ") + ["\t", "\n", "-", ".", ":", "1", "9", "+", "\u00a0", "\u0663", "\u00e9", "\u00b2",
-                                "\u00d7", "\uff0a", "\uff08", "\u200b", "((", "))", ",,", "**", "()", "\u3000"]
+                                "\u00d7", "\uff0a", "\uff08", "\u200b", "((", "))", ",,", "**", "()", "\u3000",
+                                "{", "}", "{{", "}}", "{0}", "%", "%s", "\\", "$", "[", "]", "#", "'", "\""]
 
 _FIELD = StepParameterSpaceDefinition.__fields__["combination"].type_
 _REGEX = _FIELD.regex
